@@ -361,7 +361,7 @@ def run(ctx, replay=None):
 
     all_traces = traces + extras
     t0 = time.time()
-    rep = run_parallel(ctx, all_traces, timeout=900 if quick else 3000)
+    rep = run_parallel(ctx, all_traces, timeout=1500 if quick else 3600)
     ctx.log('driver: %d traces, %d steps, %d checks, %d failures in %.1fs' % (rep['traces'], rep['steps'], rep['checks'],
                                                                          len(rep['failures']), time.time() - t0))
     engine.collect(ctx, rep, all_traces, DRIVER)
